@@ -3,12 +3,18 @@ from props import prop
 prop("C01", "fault_enumeration",
      "the counterpart is the real endpoint code configured with an inconsistent identity, described by attributes: chain "
      "(trusted / under an untrusted root / self-signed / unrelated intermediate presented / no intermediate presented), validity "
-     "(valid / expired / not yet valid), certificate type (leaf / intermediate-typed presented as leaf), name (expected label / other "
-     "label / same label other type), holds the certified private key or not (impostor), certified key in the judge's authorized-key "
-     "set or not; the judging side's policy: trust store with/without the root, authorized keys allowed, InsecureSkipVerify, expected "
-     "name (zero / matching / same label other type / other label), additional-verify callback (none / accepting / rejecting), and nil "
-     "ClientVerify on the server. Enumerated: 2 modes x 2 directions x 27 counterpart kinds (each attribute deviating alone, plus "
-     "combinations) x 96 policies; plus rapid-drawn arbitrary attribute/policy combinations. Runs over vlib/simnet inside a synctest "
+     "(valid / expired / not yet valid), certificate type (leaf / intermediate-typed presented as leaf), names on the leaf (expected label / "
+     "other label / same label other type / several names with the expected one last / several names without it / only the explicitly "
+     "empty raw name / no name / only the empty DNS name / expected label plus empty raw name), holds the certified private key or not "
+     "(impostor), certified key in the judge's authorized-key set or not; 'bait' chains: a hand-made (unsigned, or signed by the "
+     "presented certificate's key) certificate whose Parent names whatever certificate sits in the intermediate slot - the untrusted "
+     "root, the untrusted intermediate, an untrusted leaf, the TRUSTED root, the trusted intermediate; the judging side's policy: trust "
+     "store with/without the root, authorized keys allowed, InsecureSkipVerify, expected name (zero / matching / same label other type / "
+     "other label / certs.RawStringName(\"\") / certs.DNSName(\"\") / certs.Name{Label: []byte{}} / a label that is one of several on "
+     "some leaves), additional-verify callback (none / accepting / rejecting), and nil ClientVerify on the server. The reference name "
+     "decision: no name given, or some name on the leaf has the same type and label bytes. Enumerated: 2 modes x 2 directions x 55 "
+     "counterpart kinds (each attribute deviating alone, plus combinations) x 128 policies (the degenerate expected names are not "
+     "crossed with the callback); plus rapid-drawn arbitrary attribute/policy combinations. Runs over vlib/simnet inside a synctest "
      "bubble. Oracle (implication only): Client.Handshake()==nil => the server identity satisfies the client's policy and holds the "
      "certified key; discoverable: Accept offers a connection => the client identity satisfies the server's policy and holds its key; "
      "both modes: Handle.ReadMsg delivers data => same. Honest valid identities must be served (sanity). Non-trivial = counterpart is "
@@ -30,19 +36,42 @@ prop("C01", "fault_enumeration",
      "beforeDone) and Client.Close (elected, connClosed, beforePublish). Oracle: ANY of these calls returning nil => the server's "
      "proving message (ServerAuth / ServerResponseHidden) had been delivered to the client's socket when the call returned (network "
      "log); no call panics; after Handshake()==nil a WriteMsg does not panic; sanity: honest reachable server, no early Close => the "
-     "handshakers and writers succeed. Non-trivial = >=2 callers and Close at a generated time.",
+     "handshakers and writers succeed. Non-trivial = >=2 callers and Close at a generated time. "
+     "Family 'long-lived verifier' (rapid): a SEQUENCE of 2-4 handshakes by generated near-valid identities (chains under the untrusted "
+     "root and baits pointing at it are frequent) against ONE verifier: one Server with one ClientVerify, or one VerifyConfig value "
+     "copied into successive Clients that each face their own server (the copies share the store's map and the key set); both modes. "
+     "Oracle per handshake: the implications above with the reference decision for THAT identity alone - verification must not depend "
+     "on what earlier peers presented; an honest valid identity is served wherever it stands. Non-trivial = >=2 handshakes, one of them "
+     "by an unacceptable identity; labels count 'untrusted chain after a bait handshake'. "
+     "Family 'certificate lookups fail' (rapid, server judges): the server is configured with ServerConfig.GetCertificate/GetCertList "
+     "callbacks over a host table (as hopserver does) that FAIL at generated call numbers of the server's life, from a generated call "
+     "number on, or for the host name the list advertises (pair disagrees), or because the client asks for an unknown host; 1-4 "
+     "handshakes on one server by the real Client or by a PUPPET: a harness-side client that writes the handshake with the package's "
+     "own message writers, presents a chain (mostly the victim's valid chain without its key), and then sends data sealed under EVERY "
+     "key set it can compute (transcript after each of its own messages, after the server's answer without the static DH, after the "
+     "answer processed with the key it holds); it learns the session ID from the handshake answer, from the greeting the server "
+     "application writes on an offered connection, or is told it. Oracle unchanged (discoverable: Accept offers => acceptable and key "
+     "held; both modes: data delivered => same); an honest peer (real or puppet) under which no lookup failed is served. Non-trivial = "
+     "a lookup failed or a puppet took part, and some identity is unacceptable.",
      ["ML-KEM, X25519, Ed25519 and the duplex are not attacked by search; impostors are structural (valid certificate, other key)",
       "the policy predicate models the documented VerifyConfig semantics (authorized keys: leaf format + key in set; InsecureSkipVerify skips all chain and name checks; nil ClientVerify = no verification)",
-      "in-flight garbage in MAC/tag fields and transplants are covered by C02's sweep"],
+      "in-flight garbage in MAC/tag fields and transplants are covered by C02's sweep",
+      "an expected name is 'given' unless it is the zero value certs.Name{} (nil label, type 0): VerifyConfig.Name is 'compared to the certificate when non-empty', VerifyOptions.Name 'if it is non-zero', and certs.Name.IsZero states that a zero-length non-nil label 'does not count as zero. It's an explicitly empty, raw name' - so certs.RawStringName(\"\") and certs.DNSName(\"\") are names the leaf must carry (the unchanged tree behaves that way)",
+      "session IDs are public (they travel in the clear in every packet), so the puppet may be told the ID of the session the server created for its address",
+      "a failing GetCertificate/GetCertList callback is a legal server configuration (hopserver's own callbacks return errors for unknown hosts)"],
      [dict(name="matrix", pkg="transport", run="^TestVerifC01Matrix$", shards=dict(quick=16, thorough=16), timeout=dict(quick=900, thorough=3600)),
       dict(name="random", pkg="transport", run="^TestVerifC01Random$", shards=dict(quick=8, thorough=16), thorough_scale=60),
       dict(name="realclock", pkg="transport", run="^TestVerifC01RealClock$", shards=dict(quick=16, thorough=16), thorough_scale=20),
-      dict(name="interrupted", pkg="transport", run="^TestVerifC01Interrupted$", shards=dict(quick=16, thorough=16), thorough_scale=20)],
+      dict(name="interrupted", pkg="transport", run="^TestVerifC01Interrupted$", shards=dict(quick=16, thorough=16), thorough_scale=20),
+      dict(name="sequence", pkg="transport", run="^TestVerifC01Sequence$", shards=dict(quick=16, thorough=16), thorough_scale=20),
+      dict(name="lookupfaults", pkg="transport", run="^TestVerifC01LookupFaults$", shards=dict(quick=16, thorough=16), thorough_scale=20)],
      exhaustive_core=True,
      text="Enumerated matrix of counterpart kinds x verification policies x modes x directions run through the real handshake code, "
           "judged by a policy predicate over how each identity was constructed; rapid adds arbitrary attribute combinations, sequences "
-          "of handshakes under the (virtual) real clock with certificates that become valid and expire while one server runs, and "
-          "concurrent callers on one client whose handshake is interrupted by Close against an absent, silent or late server.",
+          "of handshakes under the (virtual) real clock with certificates that become valid and expire while one server runs, "
+          "concurrent callers on one client whose handshake is interrupted by Close against an absent, silent or late server, sequences "
+          "of handshakes (including bait chains) against one long-lived verifier judged by the decision for each identity alone, and a "
+          "server whose certificate callbacks fail, attacked by a puppet that sends data under every key set its transcript yields.",
      note="trusts synctest, simnet, the policy predicate (written from config.go's documentation) and the certs issuing API used to build identities",
      technique="enumerated configuration/fault matrix + property-based sampling (rapid) against a policy predicate",
      design="DESIGN.md section 4, C01")
